@@ -14,7 +14,7 @@ func init() {
 			{Name: "pipeline", Pkg: ".", Files: []string{"root/fed.go", "root/c01.go"}, Entry: "VerifPipeline", Mode: "seq", Native: true,
 				Quick: map[string]int{"k": 2, "three": 1}, Thorough: map[string]int{"k": 3, "three": 1},
 				Reach: []string{"pipeline completed"}, Functions: pipelineFns,
-				Known: []string{"C01-node-without-fragment"}},
+				Known: []string{"C01-node-without-fragment", "C01-response-key-id-taken"}},
 			{Name: "pipeline-abstract", Pkg: ".", Files: []string{"root/fed.go", "root/c01.go"}, Entry: "VerifPipelineAbstract", Mode: "seq", Native: true,
 				Quick: map[string]int{"k": 2}, Thorough: map[string]int{"k": 3},
 				Reach: []string{"pipeline completed"}, Functions: pipelineFns,
